@@ -385,6 +385,7 @@ class Oracle:
         self.nfail = 0
         self.checked = 0
         self.named_found = 0
+        self.hung = False
         self.hist = {}
 
     def fail(self, key, what, replay):
@@ -464,15 +465,38 @@ def load_enum(ctx):
         raise common.Infra("cannot read enum mjtObj: %s" % e)
 
 
+def run_impl(ctx, impl, lines, oracle, what):
+    """run the harness with a hang guard; returns outputs or None (failure already reported)"""
+    budget = 900 if ctx.tier == "thorough" else 150
+    try:
+        rc, outs, err = ctx.run_lines([impl], lines, timeout=budget)
+    except subprocess.TimeoutExpired:
+        # find the first line on which the real code does not return (each model line is self-contained)
+        hung = None
+        for l in [x for x in lines if x.startswith("model ")][:400]:
+            try:
+                ctx.run_lines([impl], [l], timeout=10)
+            except subprocess.TimeoutExpired:
+                hung = l
+                break
+        oracle.hung = True
+        oracle.fail("c34:hang", "the harness did not finish %s within %d s: mj_compile / mj_name2id does not terminate" % (what, budget),
+                    {"line": (hung or lines[0])[:4000], "replay": "echo '<line>' | <c34_name harness>   (does not return)"})
+        return None
+    if rc != 0 or len(outs) != len(lines):
+        k = min(len(outs), len(lines) - 1)
+        oracle.fail("c34:crash", "harness crashed during %s (rc=%s): %s" % (what, rc, err[-300:]),
+                    {"line": lines[k][:4000], "last_output": outs[-1][:300] if outs else None})
+        return None
+    return outs
+
+
 def run_models(ctx, impl, drv, specs, enum, oracle, label, with_model=True):
     """stage A (compile + raw lists), then differential + oracle on model/query lines"""
     rng = ctx.rng
     slines = [spec_line(s, enum) for s in specs]
-    rc, outs, err = ctx.run_lines([impl], slines)
-    if rc != 0 or len(outs) != len(slines):
-        k = min(len(outs), len(slines) - 1)
-        oracle.fail("c34:crash", "harness crashed while compiling a valid spec (rc=%s): %s" % (rc, err[-300:]),
-                    {"spec_line": slines[k], "last_output": outs[-1][:300] if outs else None})
+    outs = run_impl(ctx, impl, slines, oracle, "compiling valid specs")
+    if outs is None:
         return
     lines, owner = [], []
     per_model = []
@@ -490,18 +514,15 @@ def run_models(ctx, impl, drv, specs, enum, oracle, label, with_model=True):
         lines += qs
     if not lines:
         return
-    rc, outs, err = ctx.run_lines([impl], lines)
-    if rc != 0 or len(outs) != len(lines):
-        k = min(len(outs), len(lines) - 1)
-        oracle.fail("c34:crash", "harness crashed during lookups (rc=%s): %s" % (rc, err[-300:]),
-                    {"line": lines[k][:2000], "last_output": outs[-1][:300] if outs else None})
-    else:
-        for sl, lists, start, qs in per_model:
-            if outs[start].split(" ", 1)[0] != "ok":
-                oracle.fail("c34:compile", "spec compiled in the first pass but not in the second: " + outs[start][:200], {"spec_line": sl})
-                continue
-            for k, ql in enumerate(qs):
-                oracle.query(sl, lists, ql, outs[start + 1 + k])
+    outs = run_impl(ctx, impl, lines, oracle, "lookups")
+    if outs is None:
+        return
+    for sl, lists, start, qs in per_model:
+        if outs[start].split(" ", 1)[0] != "ok":
+            oracle.fail("c34:compile", "spec compiled in the first pass but not in the second: " + outs[start][:200], {"spec_line": sl})
+            continue
+        for k, ql in enumerate(qs):
+            oracle.query(sl, lists, ql, outs[start + 1 + k])
     if with_model and drv:
         ctx.differential(label, [drv], [impl], lines, keyf=lambda l: None if l.startswith("i ") and " -" in l else l[:4000])
         if per_model and len(ctx.samples) < 4:
@@ -556,10 +577,12 @@ def run(ctx):
             kinds[s["kind"]] = kinds.get(s["kind"], 0) + 1
         batch = 100
         for b in range(0, len(specs), batch):
+            if oracle.hung:
+                break
             run_models(ctx, impl, drv, specs[b:b + batch], enum, oracle,
                        "mj_compile tables + mj_name2id/mj_id2name vs Lean model [%d]" % (b // batch))
         hl = hash_lines(rng, ctx.tier) + ["h 00 5", "h 61 0", "frob", "q 1", "i 1 x", "q x 61"]
-        if drv:
+        if drv and not oracle.hung:
             ctx.differential("mj_hashString vs Lean model", [drv], [impl], hl, keyf=lambda l: l if l.startswith("h ") else None)
         rc, outs, err = ctx.run_lines([impl], hl)
         if rc == 0 and len(outs) == len(hl):
